@@ -167,7 +167,8 @@ def replay(case, h):
     try:
         plain = rm.decode(h.match(h.mop(make_rule_doc(["zzzznomatch"])), path, ret="stream"))
         tagged = rm.decode(h.match(h.mop(make_rule_doc(["zzzznomatch"], conf)), path, ret="stream"))
-        rules = {mn: h.match(h.mop(make_rule_doc([{mn: ["valid_addr"]}], conf)), path, only_addr=True) for mn in ("call", "jmp")}
+        rev = {"valid_addr_range": {"max": conf["valid_addr_range"]["max"], "min": conf["valid_addr_range"]["min"]}}   # as in run_shard
+        rules = {mn: h.match(h.mop(make_rule_doc([{mn: ["valid_addr"]}], conf if mn == "call" else rev)), path, only_addr=True) for mn in ("call", "jmp")}
     except Exception as e:
         return True, repr(e)
     bad = []
